@@ -1,5 +1,5 @@
 #!/venv/bin/python
-"""seeded_par.py [--jobs N] [--seeds 0,1,2] [--only r3m]  -- run every stored seeded change through its property's quick check in
+"""seeded_par.py [--jobs N] [--seeds 0,1,2] [--only r3m] [--base K]  -- run every stored seeded change through its property's quick check in
 parallel.  Each job works in its own copy of /verif (under /tmp) against its own git worktree of /repo (LBG_REPO), so /repo itself is
 never touched.  Results are merged into seeded/<prop>/<name>/meta.json (same fields as `seeded.py run`).  Scratch copies are removed
 at the end.  Nothing here is registered in MANIFEST.json."""
@@ -17,6 +17,7 @@ def sh(cmd, cwd=None, env=None, timeout=7200):
 
 
 def worker(j, items, seeds, tier):
+    j += BASE
     vr, rr = '/tmp/vr%d' % j, '/tmp/rr%d' % j
     sh('rm -rf %s; git -C /repo worktree remove --force %s 2>/dev/null; rm -rf %s' % (vr, rr, rr))
     sh('rsync -a --exclude .git --exclude replays --exclude work %s/ %s/' % (ROOT, vr))
@@ -50,6 +51,7 @@ if __name__ == '__main__':
     seeds = tuple(int(x) for x in a[a.index('--seeds') + 1].split(',')) if '--seeds' in a else (0, 1, 2)
     only = a[a.index('--only') + 1] if '--only' in a else ''
     tier = 'quick'
+    BASE = int(a[a.index('--base') + 1]) if '--base' in a else 0
     items = [e for e in S.entries() if only in (e[0] + '/' + e[1])]
     parts = [items[i::jobs] for i in range(jobs)]
     with ThreadPoolExecutor(jobs) as ex:
